@@ -6,7 +6,7 @@
 Prints one line per check: ID rc seconds [violation signatures].
 """
 import json, os, re, subprocess, sys, time, shutil
-ROOT = '/tmp/mrun'
+ROOT = os.environ.get('MRUN_ROOT', '/tmp/mrun')
 REPO = ROOT + '/repo'
 VERIF = ROOT + '/verif'
 ALL = ['C%02d' % i for i in range(1, 21)]
